@@ -4,7 +4,7 @@
 From RecordUpdate Require Import RecordUpdate.
 From Coq Require Import List ZArith NArith Lia Bool Arith.
 From Coq.Strings Require Import Byte.
-From L3 Require Import Ber BerFixed Frame FrameSpec FrameFixed Msgid Conn ConnProofs ConnAccount ConnLin2 ConnC04.
+From L3 Require Import Ber BerFixed Frame FrameSpec FrameFixed FrameFixedSpec Msgid Conn ConnProofs ConnAccount ConnLin2 ConnC04.
 Import ListNotations.
 
 (* ---- the byte stream never makes the codec panic, and an error is the last thing it yields ---- *)
@@ -96,8 +96,24 @@ Proof.
   split; [exact Hend|]. intros Hc. eapply c04_no_pending_after_end; [|exact Hend|exact Hc].
   apply Forall_app; split; [exact Hp|]. apply Forall_app; split; [apply receive_proper|exact Hq].
 Qed.
+(* C06 at the level the caller sees: for a stream of well-formed messages (any legal encoding of each), the events the driver is fed -
+   hence every later state of the connection, every delivery to every operation - do not depend on how the bytes were cut into reads *)
+Theorem c06_connection_level f pre post m vs bss chunks1 chunks2 :
+  Stream (EncFixed m) vs bss -> concat chunks1 = concat bss -> concat chunks2 = concat bss ->
+  receive m chunks1 = flat_map wire_evs (map Deliver vs) /\
+  run f (pre ++ receive m chunks1 ++ post) = run f (pre ++ receive m chunks2 ++ post).
+Proof.
+  intros S E1 E2. unfold receive. rewrite (c06_any_segmentation_fixed m vs bss chunks1 S E1), (c06_any_segmentation_fixed m vs bss chunks2 S E2). split; reflexivity.
+Qed.
+(* and each message costs the driver exactly: queue it, route it *)
+Corollary c06_one_pair_per_message m vs bss chunks : Stream (EncFixed m) vs bss -> concat chunks = concat bss ->
+  receive m chunks = flat_map (fun v => [ServerSend (resp_of v); DrvResp]) vs.
+Proof. intros S E. unfold receive. rewrite (c06_any_segmentation_fixed m vs bss chunks S E). clear. induction vs as [|v vs IH]; [reflexivity|].
+  cbn [map flat_map wire_evs app]. now rewrite IH. Qed.
+
 (* the hypothesis is met by, e.g., a frame whose nested element is cut inside its header at the end of its parent *)
 Example c11_undecodable_example : In EvError (framed_run (decode_inner' (repaired_d 100)) [] [[x30; x08; x02; x01; x01; x6b; x03; x0a]; [x84; x00]]).
 Proof. vm_compute. now left. Qed.
 Print Assumptions c11_undecodable_ends_connection.
 Print Assumptions c11_bytes_never_panic.
+Print Assumptions c06_connection_level.
